@@ -452,8 +452,8 @@ def reach_{K}({SIG}) -> bool:
 {PRE}
     post: _
     """
-    # reachability twin: must be REFUTED (some value encodes to at least one byte)
-    return len(encode(entry({K})[0], value({K}, {ARGS}))) < 1
+    # reachability twin: must be REFUTED (some value is built and encoded to the end)
+    return len(encode(entry({K})[0], value({K}, {ARGS}))) < 0
 '''
 
 
